@@ -258,7 +258,6 @@ class C08(Prop):
 
         path = ctx.tmpdir() / "LaserLog_synthetic.csv"
         gen_nwi.write_log(path, rows, datetime.datetime(*case["base"][:6], case["base"][6] * 1000))
-        data_before, times_before = data.copy(), times.copy()
         try:
             log = str(path) if case["via"] == "path" else laser.read_nwi_laser_log(path)
             seq_arg = sel if not isinstance(sel, list) else list(sel)
